@@ -119,7 +119,7 @@ def _set_generator_counter(gen, value: int):
 def run_one(params: dict, chooser, deviations=True) -> dict:
     ops = params['ops']
     ERRORS.records.clear()
-    world = World(chooser=chooser, horizon=params.get('horizon', 13.0), deviations=False)
+    world = World(chooser=chooser, horizon=params.get('horizon', 10.5 if 'W' in ops else 13.0), deviations=False)
     violations: list[Violation] = []
     try:
         net = SimNet(world)
@@ -128,7 +128,8 @@ def run_one(params: dict, chooser, deviations=True) -> dict:
         settings = make_settings(
             obfuscated_port=0,
             searches={'send': {'request_timeout': params['rt'], 'wishlist_request_timeout': params['wt']},
-                      'wishlist': [{'query': 'wish', 'enabled': True}]})
+                      'wishlist': [{'query': 'wish', 'enabled': True}, {'query': 'off', 'enabled': False},
+                                   {'query': 'wish two', 'enabled': True}]})
         bus = EventBus()
         network = Network(settings, bus)
         manager = SearchManager(settings, bus, None, None, network)
@@ -299,6 +300,10 @@ def run_timer(seq: tuple) -> dict:
                     timer.reschedule(3.0)
                     model['timeout'] = 3.0
                     model['armed'] = now + 3.0
+                elif op == 'resched05':
+                    timer.reschedule(0.5)
+                    model['timeout'] = 0.5
+                    model['armed'] = now + 0.5
                 elif op == 'yield':
                     await asyncio.sleep(0)
                 elif op == 'tick1':
@@ -324,7 +329,7 @@ def run_timer(seq: tuple) -> dict:
         world.close()
 
 
-TIMER_OPS = ['start', 'cancel', 'resched', 'resched3', 'yield', 'tick1', 'tick2']
+TIMER_OPS = ['start', 'cancel', 'resched', 'resched3', 'resched05', 'yield', 'tick1', 'tick2']
 
 
 # --- scenario space --------------------------------------------------------------------------------------------
@@ -410,6 +415,8 @@ def run_scenario(params: dict, tier: str) -> dict:
     bound = 1 if (tier == 'quick' or len(params['ops']) > 4) else 2
     if tier == 'quick' and len(params['ops']) <= 2:
         bound = 2
+    if 'W' in params['ops'] and (tier == 'quick' or len(params['ops']) > 2):
+        bound = 1      # wishlist rounds keep producing timers: deviation 2 is left to short sequences in thorough
     res = explore(lambda ch: run_one(params, ch), bound=bound, max_exec=100000)
     return {'executions': res.executions, 'violations': res.violations, 'states': res.states,
             'transitions': res.transitions, 'outcomes': list(res.outcomes), 'nontrivial': list(res.nontrivial),
